@@ -1,5 +1,5 @@
 (* Props/C01.v — tape archive round trip: create, then list/extract, returns every file intact. *)
-Require Import PyBase Tape K7 TapeProofs.
+Require Import PyBase Tape K7 TapeProofs TapeStateProofs.
 Open Scope Z_scope.
 
 (* for every ordered list of readable sources with 8.3 ASCII names (any case, with or without
@@ -32,3 +32,31 @@ Example C01_example_hyps : forallb (src_readable ex_fs) ex_srcs = true /\ forall
 Proof. vm_compute. split; reflexivity. Qed.
 Example C01_example_names : map src_catname ex_srcs = [[65;46;66;65;83]; [66;46]; [67;46;67;83;86]].
 Proof. vm_compute. reflexivity. Qed.
+
+(* from effects to the state of the directory: when the destinations are pairwise distinct and none
+   of them is the archive itself (the case finding F18 is about), then after create and extract
+   every source is a file next to the archive holding exactly its bytes, and the archive still
+   holds what create wrote.  fs0 is whatever the directory held before. *)
+Theorem C01_directory_after_roundtrip :
+  forall (fs fs0 : fsmap) (srcs : list (list Z)) (arch : list Z) (v : bool),
+  forallb (src_readable fs) srcs = true -> forallb src_83 srcs = true ->
+  negb (existsb (Z.eqb 0) (dirname arch)) = true ->
+  k7_encoded_size (entries fs srcs) < 21504 ->
+  let dest := fun s => path_join (dirname arch) (src_catname s) in
+  NoDup (map dest srcs) -> ~ In arch (map dest srcs) ->
+  exists raw,
+    o_effects (tar_create v fs arch srcs) = [WriteFile arch raw] /\
+    let after := apply_effects (apply_effects fs0 (o_effects (tar_create v fs arch srcs)))
+                               (o_effects (tar_extract v None arch raw)) in
+    (forall s, In s srcs -> fs_read after (dest s) = Some (src_content fs s)) /\
+    fs_read after arch = Some raw.
+Proof. exact tape_roundtrip_directory. Qed.
+Print Assumptions C01_directory_after_roundtrip.
+Example C01_example_distinct_destinations :
+  let dest := fun s => path_join (dirname [111;47;116;46;107;55]) (src_catname s) in
+  NoDup (map dest ex_srcs) /\ ~ In [111;47;116;46;107;55] (map dest ex_srcs).
+Proof.
+  vm_compute. split.
+  - repeat constructor; cbn; intuition discriminate.
+  - intuition discriminate.
+Qed.
